@@ -4,12 +4,21 @@ import (
 	"fmt"
 	"go/token"
 	"go/types"
+	"hash/fnv"
+	"math"
 	"reflect"
+	"regexp"
+	"sort"
+	"strconv"
 	"strings"
 	"time"
 
 	"golang.org/x/tools/go/ssa"
 )
+
+type ssa_Function = ssa.Function
+
+const apiPkg = "github.com/Oudwins/zog/zzverif"
 
 func copyVal(v value) value {
 	switch v := v.(type) {
@@ -29,11 +38,30 @@ func copyVal(v value) value {
 	return v
 }
 
+// opaque string produced by a formatting function of a symbolic number: only the inverse
+// parser, emptiness and trimming are understood (everything else aborts as unsupported).
+type opaqueStr struct {
+	kind string // itoa | ftoa
+	arg  value
+}
+
+func symToken(t string) string {
+	h := fnv.New32a()
+	h.Write([]byte(t))
+	return fmt.Sprintf("«sym:%08x»", h.Sum32())
+}
+
+// toNative renders an interpreter value for native fmt; symbolic leaves become stable tokens.
 func toNative(v value) any {
 	switch x := v.(type) {
 	case iface:
 		if x.t == nil {
 			return nil
+		}
+		if x.t == errorType {
+			if s, ok := x.v.(string); ok {
+				return fmt.Errorf("%s", s)
+			}
 		}
 		return toNative(x.v)
 	case []value:
@@ -53,55 +81,238 @@ func toNative(v value) any {
 			out[i] = toNative(x[i])
 		}
 		return out
+	case map[value]value:
+		out := map[string]any{}
+		for k, e := range x {
+			out[fmt.Sprint(toNative(k))] = toNative(e)
+		}
+		return out
 	case symI:
-		return "<sym>"
+		cur.approx("fmt of a symbolic value rendered as an opaque token")
+		return symToken(x.t)
 	case symF:
-		return "<sym>"
+		cur.approx("fmt of a symbolic value rendered as an opaque token")
+		return symToken(x.t)
 	case symB:
-		return "<sym>"
+		cur.approx("fmt of a symbolic value rendered as an opaque token")
+		return symToken(x.t)
+	case symStr:
+		cur.approx("fmt of a symbolic value rendered as an opaque token")
+		return symToken(lenTerm(x.n) + fmt.Sprint(len(x.b)))
+	case opaqueStr:
+		cur.approx("fmt of a symbolic value rendered as an opaque token")
+		return symToken(fmt.Sprint(x.arg))
+	case rtype:
+		if x.t == nil {
+			return "<nil>"
+		}
+		return x.t.String()
+	case *ssa.Function, *closure:
+		return "<func>"
 	}
 	return v
 }
 
 type pool struct{ items []value }
 
-var pools = map[*value]*pool{}
-var builders = map[*value]string{}
-var sharedGlobals = map[*ssa.Global]*value{}
-
-func symIsZero(t types.Type, v value) value {
-	switch x := v.(type) {
-	case symI:
-		return symB{fmt.Sprintf("(= %s %s)", x.t, bvConst(0, x.w))}
-	case symF:
-		return symB{fmt.Sprintf("(fp.isZero %s)", x.t)} // reflect.IsZero: bits==0, spike approximation
-	case symB:
-		return symB{"(not " + x.t + ")"}
-	case symStr:
-		return symB{fmt.Sprintf("(= %s %s)", lenTerm(x.n), bvConst(0, 64))}
+func strArg(v value) string {
+	s, ok := v.(string)
+	if !ok {
+		panic(pathAbort{fmt.Sprintf("unsupported: native string function on symbolic string (%T)", v)})
 	}
-	return equals(t, v, zero(t))
+	return s
+}
+
+func errVal(msg string) value { return iface{t: errorType, v: msg} }
+
+func (e *Explorer) newND(name, kind, sort string) (string, string) {
+	n := e.ndName(name)
+	t := e.declare(n, sort)
+	e.vars = append(e.vars, ndVar{Name: n, Kind: kind, term: t})
+	return n, t
+}
+
+func isHarnessPkg(path string) bool { return strings.HasPrefix(path, apiPkg) }
+func isZogPkg(path string) bool {
+	return strings.HasPrefix(path, "github.com/Oudwins/zog") && !isHarnessPkg(path)
 }
 
 func init() {
+	api := func(name string, f externalFn) { externals[apiPkg+"."+name] = f }
+	intND := func(kind string, bk types.BasicKind, w int) externalFn {
+		return func(fr *frame, args []value) value {
+			_, t := cur.newND(args[0].(string), kind, bvSort(w))
+			return symI{w, kindSigned(bk), bk, t}
+		}
+	}
+	api("Int", intND("int", types.Int, 64))
+	api("Int64", intND("int64", types.Int64, 64))
+	api("Int32", intND("int32", types.Int32, 32))
+	api("Byte", intND("byte", types.Uint8, 8))
+	api("Bool", func(fr *frame, args []value) value {
+		_, t := cur.newND(args[0].(string), "bool", "Bool")
+		return symB{t}
+	})
+	api("Float64", func(fr *frame, args []value) value {
+		_, t := cur.newND(args[0].(string), "float64", bvSort(64))
+		return symF{64, "((_ to_fp 11 53) " + t + ")"}
+	})
+	api("Float32", func(fr *frame, args []value) value {
+		_, t := cur.newND(args[0].(string), "float32", bvSort(32))
+		return symF{32, "((_ to_fp 8 24) " + t + ")"}
+	})
+	api("String", func(fr *frame, args []value) value {
+		n := cur.ndName(args[0].(string))
+		s, v := newSymStr(n, args[1].(int))
+		v.Name = n
+		cur.vars = append(cur.vars, v)
+		if len(s.b) == 0 {
+			return ""
+		}
+		return s
+	})
+	api("Choice", func(fr *frame, args []value) value {
+		n := cur.ndName(args[0].(string))
+		k := cur.choose(args[1].(int), n)
+		cur.vars = append(cur.vars, ndVar{Name: n, Kind: "choice", val: strconv.Itoa(k)})
+		return k
+	})
+	api("Assume", func(fr *frame, args []value) value { cur.assumeV(args[0]); return nil })
+	api("Assert", func(fr *frame, args []value) value { cur.assert(args[0], args[1].(string)); return nil })
+	api("Fail", func(fr *frame, args []value) value { cur.assert(false, args[0].(string)); return nil })
+	api("Cover", func(fr *frame, args []value) value {
+		cur.res.Covers[args[0].(string)]++
+		cur.trace = append(cur.trace, "cover:"+args[0].(string))
+		return nil
+	})
+	api("Obs", func(fr *frame, args []value) value {
+		if s, ok := args[0].(string); ok {
+			cur.trace = append(cur.trace, "obs:"+s)
+		} else {
+			cur.trace = append(cur.trace, "obs:?")
+		}
+		return nil
+	})
+	api("B2I", func(fr *frame, args []value) value {
+		if b, ok := args[0].(symB); ok {
+			return newI(64, true, types.Int, mkIte(b.t, bvConst(1, 64), bvConst(0, 64)))
+		}
+		if args[0].(bool) {
+			return 1
+		}
+		return 0
+	})
+	api("Ite", func(fr *frame, args []value) value {
+		if b, ok := args[0].(symB); ok {
+			x, _ := liftI(args[1])
+			y, _ := liftI(args[2])
+			return newI(64, true, types.Int, mkIte(b.t, x.t, y.t))
+		}
+		if args[0].(bool) {
+			return args[1]
+		}
+		return args[2]
+	})
+	api("IteB", func(fr *frame, args []value) value {
+		c, _ := liftB(args[0])
+		x, _ := liftB(args[1])
+		y, _ := liftB(args[2])
+		return boolVal(mkIte(c.t, x.t, y.t))
+	})
+	api("And", func(fr *frame, args []value) value {
+		x, _ := liftB(args[0])
+		y, _ := liftB(args[1])
+		return boolVal(mkAnd(x.t, y.t))
+	})
+	api("Or", func(fr *frame, args []value) value {
+		x, _ := liftB(args[0])
+		y, _ := liftB(args[1])
+		return boolVal(mkOr(x.t, y.t))
+	})
+	api("Not", func(fr *frame, args []value) value { return symNotV(args[0]) })
+	api("Implies", func(fr *frame, args []value) value {
+		x, _ := liftB(args[0])
+		y, _ := liftB(args[1])
+		return boolVal(mkOr(mkNot(x.t), y.t))
+	})
+	api("Tier", func(fr *frame, args []value) value { return Tier })
+	api("SetTier", func(fr *frame, args []value) value { return nil })
+	api("PoolChoice", func(fr *frame, args []value) value { cur.poolPick = args[0].(bool); return nil })
+	api("MapOrderChoice", func(fr *frame, args []value) value { cur.mapOrder = args[0].(bool); return nil })
+	api("Concrete", func(fr *frame, args []value) value { return !deepContainsSym(args[0], 0) })
+	api("Itoa", func(fr *frame, args []value) value {
+		if n, ok := args[0].(int); ok {
+			return strconv.Itoa(n)
+		}
+		return opaqueStr{"itoa", args[0]}
+	})
+	api("Ftoa", func(fr *frame, args []value) value {
+		if f, ok := args[0].(float64); ok {
+			return strconv.FormatFloat(f, 'g', -1, 64)
+		}
+		return opaqueStr{"ftoa", args[0]}
+	})
+	api("Trunc", func(fr *frame, args []value) value {
+		if f, ok := args[0].(float64); ok {
+			return math.Trunc(f)
+		}
+		return newF(64, "(fp.roundToIntegral RTZ "+args[0].(symF).t+")")
+	})
+	api("IsNaN", func(fr *frame, args []value) value {
+		if f, ok := args[0].(float64); ok {
+			return f != f
+		}
+		return boolVal("(fp.isNaN " + args[0].(symF).t + ")")
+	})
+	api("IsInf", func(fr *frame, args []value) value {
+		if f, ok := args[0].(float64); ok {
+			return math.IsInf(f, 0)
+		}
+		return boolVal("(fp.isInfinite " + args[0].(symF).t + ")")
+	})
+	api("SameBits", func(fr *frame, args []value) value {
+		a, _ := liftF(args[0])
+		b, _ := liftF(args[1])
+		if !isSymScalar(args[0]) && !isSymScalar(args[1]) {
+			return math.Float64bits(args[0].(float64)) == math.Float64bits(args[1].(float64))
+		}
+		// bit identity: equal as SMT values (NaN = NaN, +0 != -0)
+		return boolVal(fmt.Sprintf("(= %s %s)", a.t, b.t))
+	})
+
 	for k, v := range map[string]externalFn{
 		"(*sync.Pool).Get": func(fr *frame, args []value) value {
 			p := args[0].(*value)
-			pl := pools[p]
-			if pl != nil && len(pl.items) > 0 {
-				it := pl.items[len(pl.items)-1]
-				pl.items = pl.items[:len(pl.items)-1]
-				return it
+			pl := cur.pools[p]
+			n := 0
+			if pl != nil {
+				n = len(pl.items)
+			}
+			if n > 0 {
+				k := n - 1 // default: LIFO, like the per-P private slot
+				if cur.poolPick {
+					k = cur.choose(n+1, "pool") - 1 // -1: New()
+					cur.sched = append(cur.sched, fmt.Sprintf("pool-get:%d/%d", k, n))
+				}
+				if k >= 0 {
+					it := pl.items[k]
+					pl.items = append(pl.items[:k:k], pl.items[k+1:]...)
+					return it
+				}
 			}
 			st := (*p).(structure)
-			return call(fr.i, fr, token.NoPos, st[len(st)-1], nil)
+			newFn := st[len(st)-1]
+			if isNilFunc(newFn) {
+				return iface{}
+			}
+			return call(fr.i, fr, token.NoPos, newFn, nil)
 		},
 		"(*sync.Pool).Put": func(fr *frame, args []value) value {
 			p := args[0].(*value)
-			if pools[p] == nil {
-				pools[p] = &pool{}
+			if cur.pools[p] == nil {
+				cur.pools[p] = &pool{}
 			}
-			pools[p].items = append(pools[p].items, args[1])
+			cur.pools[p].items = append(cur.pools[p].items, args[1])
 			return nil
 		},
 		"fmt.Sprintf": func(fr *frame, args []value) value {
@@ -109,55 +320,94 @@ func init() {
 			for _, a := range args[1].([]value) {
 				as = append(as, toNative(a))
 			}
-			return fmt.Sprintf(args[0].(string), as...)
+			return fmt.Sprintf(strArg(args[0]), as...)
+		},
+		"fmt.Sprint": func(fr *frame, args []value) value {
+			var as []any
+			for _, a := range args[0].([]value) {
+				as = append(as, toNative(a))
+			}
+			return fmt.Sprint(as...)
 		},
 		"fmt.Errorf": func(fr *frame, args []value) value {
 			var as []any
 			for _, a := range args[1].([]value) {
 				as = append(as, toNative(a))
 			}
-			return iface{t: errorType, v: fmt.Errorf(args[0].(string), as...).Error()}
+			return errVal(fmt.Errorf(strArg(args[0]), as...).Error())
 		},
-		"strings.HasSuffix":  func(fr *frame, a []value) value { return strings.HasSuffix(a[0].(string), a[1].(string)) },
-		"strings.TrimPrefix": func(fr *frame, a []value) value { return strings.TrimPrefix(a[0].(string), a[1].(string)) },
-		"strings.Contains":   func(fr *frame, a []value) value { return strings.Contains(a[0].(string), a[1].(string)) },
+		"strings.Contains": func(fr *frame, a []value) value { return symContains(a[0], a[1]) },
 		"strings.ReplaceAll": func(fr *frame, a []value) value {
-			return strings.ReplaceAll(a[0].(string), a[1].(string), a[2].(string))
+			return strings.ReplaceAll(strArg(a[0]), strArg(a[1]), strArg(a[2]))
+		},
+		"strings.ToLower": func(fr *frame, a []value) value { return strings.ToLower(strArg(a[0])) },
+		"strings.Index":   func(fr *frame, a []value) value { return strings.Index(strArg(a[0]), strArg(a[1])) },
+		"strings.TrimSpace": func(fr *frame, a []value) value {
+			switch s := a[0].(type) {
+			case string:
+				return strings.TrimSpace(s)
+			case opaqueStr:
+				return s
+			}
+			fn := fr.i.prog.ImportedPackage("strings").Func("TrimSpace")
+			return callSSABody(fr.i, fr, fn, a)
 		},
 		"regexp.MustCompile": func(fr *frame, a []value) value {
-			var v value = structure{a[0].(string)}
+			re := regexp.MustCompile(strArg(a[0]))
+			var v value = structure{nativeBox{re}}
 			return &v
 		},
+		"(*regexp.Regexp).MatchString": func(fr *frame, a []value) value {
+			re := (*a[0].(*value)).(structure)[0].(nativeBox).v.(*regexp.Regexp)
+			return re.MatchString(strArg(a[1]))
+		},
+		"(*regexp.Regexp).String": func(fr *frame, a []value) value {
+			re := (*a[0].(*value)).(structure)[0].(nativeBox).v.(*regexp.Regexp)
+			return re.String()
+		},
 		"(*strings.Builder).Reset": func(fr *frame, args []value) value {
-			builders[args[0].(*value)] = ""
+			cur.builders[args[0].(*value)] = ""
 			return nil
 		},
 		"(*strings.Builder).WriteString": func(fr *frame, args []value) value {
-			builders[args[0].(*value)] += args[1].(string)
-			return tuple{len(args[1].(string)), iface{}}
+			s := args[1]
+			if _, ok := s.(string); !ok {
+				s = toNative(s).(string)
+			}
+			cur.builders[args[0].(*value)] += s.(string)
+			return tuple{len(s.(string)), iface{}}
 		},
-		"(*strings.Builder).String": func(fr *frame, args []value) value { return builders[args[0].(*value)] },
+		"(*strings.Builder).String": func(fr *frame, args []value) value { return cur.builders[args[0].(*value)] },
+		"(*strings.Builder).Len":    func(fr *frame, args []value) value { return len(cur.builders[args[0].(*value)]) },
 		"(reflect.Value).Addr": func(fr *frame, args []value) value {
 			a := rV2A(args[0])
 			if a == nil {
-				panic(targetPanic{"reflect.Value.Addr of unaddressable value"})
+				panic(targetPanic{iface{fr.i.runtimeErrorString, "reflect.Value.Addr of unaddressable value"}})
 			}
-			return makeReflectValue(types.NewPointer(rV2T(args[0]).t), a)
+			return makeReflectValueRO(types.NewPointer(rV2T(args[0]).t), a, rVRO(args[0]))
 		},
 		"(reflect.Value).FieldByName": func(fr *frame, args []value) value {
 			t := rV2T(args[0]).t
-			st := t.Underlying().(*types.Struct)
+			st, ok := t.Underlying().(*types.Struct)
+			if !ok {
+				panic(targetPanic{iface{fr.i.runtimeErrorString, "reflect: call of reflect.Value.FieldByName on " + reflectKind(t).String() + " Value"}})
+			}
 			name := args[1].(string)
 			for i := 0; i < st.NumFields(); i++ {
 				if st.Field(i).Name() == name {
+					ro := rVRO(args[0]) || !st.Field(i).Exported()
 					if a := rV2A(args[0]); a != nil {
 						s := (*a).(structure)
-						return makeReflectValueAddr(st.Field(i).Type(), &s[i])
+						r := makeReflectValueAddr(st.Field(i).Type(), &s[i]).(structure)
+						r[3] = ro
+						return r
 					}
-					return makeReflectValue(st.Field(i).Type(), rV2V(args[0]).(structure)[i])
+					r := makeReflectValue(st.Field(i).Type(), rV2V(args[0]).(structure)[i]).(structure)
+					r[3] = ro
+					return r
 				}
 			}
-			return structure{rtype{nil}, nil, (*value)(nil)}
+			return structure{rtype{nil}, nil, (*value)(nil), false}
 		},
 		"(reflect.rtype).FieldByName": func(fr *frame, args []value) value {
 			t := args[0].(rtype).t
@@ -168,6 +418,9 @@ func init() {
 			for i := 0; i < st.NumFields(); i++ {
 				if st.Field(i).Name() == name {
 					z[0] = name
+					if !st.Field(i).Exported() {
+						z[1] = st.Field(i).Pkg().Path()
+					}
 					z[2] = makeReflectType(rtype{st.Field(i).Type()})
 					z[3] = st.Tag(i)
 					return tuple{z, true}
@@ -182,6 +435,12 @@ func init() {
 			v, ok := reflect.StructTag(args[0].(string)).Lookup(args[1].(string))
 			return tuple{v, ok}
 		},
+		"(reflect.StructTag).Get": func(fr *frame, args []value) value {
+			return reflect.StructTag(args[0].(string)).Get(args[1].(string))
+		},
+		"(reflect.Kind).String": func(fr *frame, args []value) value {
+			return reflect.Kind(asUint64(args[0])).String()
+		},
 		"reflect.MakeSlice": func(fr *frame, args []value) value {
 			t := args[0].(iface).v.(rtype).t
 			s := make([]value, args[1].(int), args[2].(int))
@@ -191,145 +450,329 @@ func init() {
 			return makeReflectValue(t, s)
 		},
 		"(reflect.Value).IsZero": func(fr *frame, args []value) value {
-			return symIsZero(rV2T(args[0]).t, rV2V(args[0]))
+			return boolVal(zeroTerm(rV2T(args[0]).t, rV2V(args[0])))
 		},
-		// ---- nondet API (harness package = zog in the spike)
-		"github.com/Oudwins/zog.vInt": func(fr *frame, args []value) value {
-			return symI{64, true, types.Int, cur.fresh("(_ BitVec 64)", args[0].(string))}
-		},
-		"github.com/Oudwins/zog.vFloat64": func(fr *frame, args []value) value {
-			return symF{64, cur.fresh("(_ FloatingPoint 11 53)", args[0].(string))}
-		},
-		"github.com/Oudwins/zog.vString": func(fr *frame, args []value) value {
-			return newSymStr(args[0].(string), args[1].(int))
+		"reflect.DeepEqual": func(fr *frame, args []value) value {
+			return boolVal(deepEqTerm(args[0], args[1], 0))
 		},
 		"strconv.Atoi": func(fr *frame, args []value) value {
-			if cs, ok := args[0].(string); ok {
-				return ext۰strconv۰Atoi(fr, []value{cs})
+			switch s := args[0].(type) {
+			case string:
+				n, err := strconv.Atoi(s)
+				if err != nil {
+					return tuple{0, errVal(err.Error())}
+				}
+				return tuple{n, iface{}}
+			case opaqueStr:
+				if s.kind == "itoa" {
+					return tuple{s.arg, iface{}}
+				}
+				cur.approx("Atoi of a formatted float: treated as a syntax error unless integral (not modelled)")
+				panic(pathAbort{"unsupported: Atoi(Ftoa(x))"})
 			}
+			// arbitrary symbolic bytes: uninterpreted outcome (documented contract only)
+			cur.approx("strconv.Atoi on symbolic bytes: uninterpreted (ok, value)")
 			ok := cur.fresh("Bool", "atoi.ok")
-			val := symI{64, true, types.Int, cur.fresh("(_ BitVec 64)", "atoi.val")}
+			val := symI{64, true, types.Int, cur.fresh(bvSort(64), "atoi.val")}
 			if cur.branch(ok) {
 				return tuple{val, iface{}}
 			}
-			return tuple{0, iface{t: errorType, v: "strconv.Atoi: parsing: invalid syntax"}}
+			return tuple{0, errVal("strconv.Atoi: parsing: invalid syntax")}
 		},
-		"github.com/Oudwins/zog.vB2I": func(fr *frame, args []value) value {
-			if b, ok := args[0].(symB); ok {
-				return symI{64, true, types.Int, fmt.Sprintf("(ite %s %s %s)", b.t, bvConst(1, 64), bvConst(0, 64))}
+		"strconv.ParseFloat": func(fr *frame, args []value) value {
+			switch s := args[0].(type) {
+			case string:
+				f, err := strconv.ParseFloat(s, args[1].(int))
+				if err != nil {
+					return tuple{f, errVal(err.Error())}
+				}
+				return tuple{f, iface{}}
+			case opaqueStr:
+				if s.kind == "ftoa" {
+					return tuple{s.arg, iface{}}
+				}
+				// decimal integer string: nearest float64
+				r, _ := symConv(types.Typ[types.Float64], s.arg)
+				return tuple{r, iface{}}
 			}
-			if args[0].(bool) {
-				return 1
+			cur.approx("strconv.ParseFloat on symbolic bytes: uninterpreted (ok, value)")
+			ok := cur.fresh("Bool", "pf.ok")
+			val := symF{64, "((_ to_fp 11 53) " + cur.fresh(bvSort(64), "pf.val") + ")"}
+			if cur.branch(ok) {
+				return tuple{val, iface{}}
 			}
-			return 0
+			return tuple{0.0, errVal("strconv.ParseFloat: parsing: invalid syntax")}
 		},
-		"github.com/Oudwins/zog.vBool": func(fr *frame, args []value) value {
-			return symB{cur.fresh("Bool", args[0].(string))}
-		},
-		"github.com/Oudwins/zog.vAssume": func(fr *frame, args []value) value {
-			b, _ := liftB(args[0])
-			cur.assume(b.t)
-			r := cur.sat("")
-			cur.pop()
-			if r != "sat" {
-				panic(pathAbort{"assumption infeasible"})
+		"strconv.ParseBool": func(fr *frame, args []value) value {
+			if s, ok := args[0].(string); ok {
+				b, err := strconv.ParseBool(s)
+				if err != nil {
+					return tuple{false, errVal(err.Error())}
+				}
+				return tuple{b, iface{}}
 			}
-			return nil
-		},
-		"github.com/Oudwins/zog.vCover": func(fr *frame, args []value) value {
-			cur.Covers[args[0].(string)]++
-			return nil
-		},
-		"github.com/Oudwins/zog.vAssert": func(fr *frame, args []value) value {
-			b, _ := liftB(args[0])
-			r := cur.sat("(not " + b.t + ")")
-			if r == "sat" {
-				m := cur.model()
-				cur.pop()
-				cur.Viol = append(cur.Viol, args[1].(string)+" :: "+strings.Join(strings.Fields(m), " "))
-				panic(pathAbort{"violation"})
+			if _, ok := args[0].(opaqueStr); ok {
+				panic(pathAbort{"unsupported: ParseBool on formatted number"})
 			}
-			cur.pop()
-			cur.assume(b.t)
-			return nil
+			fn := fr.i.prog.ImportedPackage("strconv").Func("ParseBool")
+			return callSSABody(fr.i, fr, fn, args)
+		},
+		"time.Parse": func(fr *frame, args []value) value {
+			t, err := time.Parse(strArg(args[0]), strArg(args[1]))
+			if err != nil {
+				return tuple{zero(fr.i.prog.ImportedPackage("time").Type("Time").Type()), errVal(err.Error())}
+			}
+			return tuple{timeToValue(fr, t), iface{}}
+		},
+		"time.Now": func(fr *frame, args []value) value {
+			return timeToValue(fr, time.Unix(1700000000, 0).UTC())
+		},
+		"os.Getenv": func(fr *frame, args []value) value {
+			if v, ok := cur.env[strArg(args[0])]; ok {
+				return v
+			}
+			return ""
+		},
+		"os.Setenv": func(fr *frame, args []value) value {
+			cur.env[strArg(args[0])] = args[1]
+			return iface{}
+		},
+		"os.Unsetenv": func(fr *frame, args []value) value {
+			delete(cur.env, strArg(args[0]))
+			return iface{}
 		},
 	} {
 		externals[k] = v
 	}
 }
 
-type Machine struct {
-	prog   *ssa.Program
-	sizes  types.Sizes
-	inits  []*ssa.Function
-	isUser func(string) bool
+type nativeBox struct{ v any }
+
+func isNilFunc(v value) bool {
+	switch f := v.(type) {
+	case nil:
+		return true
+	case *ssa.Function:
+		return f == nil
+	case *closure:
+		return f == nil
+	}
+	return false
 }
 
-func NewMachine(prog *ssa.Program, sizes types.Sizes, userPkgs func(path string) bool, inits ...*ssa.Function) *Machine {
-	isUser = userPkgs
-	return &Machine{prog, sizes, inits, userPkgs}
+// time.Time from a native value: wall/ext/loc with loc == nil (UTC) only.
+func timeToValue(fr *frame, t time.Time) value {
+	tt := fr.i.prog.ImportedPackage("time").Type("Time").Type()
+	z := zero(tt).(structure)
+	// layout of time.Time: wall uint64, ext int64, loc *Location
+	// Represent without monotonic reading: wall = nsec, ext = seconds since year 1.
+	sec := t.Unix() + 62135596800
+	z[0] = uint64(t.Nanosecond())
+	z[1] = sec
+	if _, off := t.Zone(); off != 0 || t.Location() != time.UTC {
+		cur.approx("time.Parse result with a non-UTC zone: location dropped (instant kept)")
+	}
+	return z
 }
 
-var isUser func(string) bool
+// symContains: strings.Contains on bounded byte vectors (both may be symbolic)
+func symContains(sv, subv value) value {
+	s, ok1 := sv.(string)
+	sub, ok2 := subv.(string)
+	if ok1 && ok2 {
+		return strings.Contains(s, sub)
+	}
+	a, okA := liftStr(sv)
+	b, okB := liftStr(subv)
+	if !okA || !okB {
+		panic(pathAbort{"unsupported: strings.Contains on opaque string"})
+	}
+	b = b.withConcreteLen()
+	m := b.n.(int)
+	if m == 0 {
+		return true
+	}
+	var alts []string
+	for off := 0; off+m <= len(a.b); off++ {
+		cs := []string{fmt.Sprintf("(bvsge %s %s)", lenTerm(a.n), bvConst(uint64(off+m), 64))}
+		for j := 0; j < m; j++ {
+			cs = append(cs, fmt.Sprintf("(= %s %s)", byteTerm(a.b[off+j]), byteTerm(b.b[j])))
+		}
+		alts = append(alts, mkAnd(cs...))
+	}
+	return boolVal(mkOr(alts...))
+}
 
-func (m *Machine) fresh() *interpreter {
-	i := &interpreter{prog: m.prog, globals: make(map[*ssa.Global]*value), sizes: m.sizes, goroutines: 1, mode: DisableRecover}
-	i.runtimeErrorString = m.prog.ImportedPackage("runtime").Type("errorString").Object().Type()
-	initReflectOnce(i)
-	for _, pkg := range m.prog.AllPackages() {
-		user := isUser(pkg.Pkg.Path())
-		for _, mem := range pkg.Members {
-			if g, ok := mem.(*ssa.Global); ok {
-				if !user {
-					if c, ok := sharedGlobals[g]; ok {
-						i.globals[g] = c
-						continue
-					}
-				}
-				cell := zero(mustDeref(g.Type()))
-				i.globals[g] = &cell
-				if !user {
-					sharedGlobals[g] = &cell
-				}
+func deepContainsSym(v value, depth int) bool {
+	if depth > 20 {
+		return false
+	}
+	switch x := v.(type) {
+	case symI, symB, symF, symStr, opaqueStr:
+		return true
+	case structure:
+		for _, f := range x {
+			if deepContainsSym(f, depth+1) {
+				return true
+			}
+		}
+	case array:
+		for _, f := range x {
+			if deepContainsSym(f, depth+1) {
+				return true
+			}
+		}
+	case []value:
+		for _, f := range x {
+			if deepContainsSym(f, depth+1) {
+				return true
+			}
+		}
+	case iface:
+		return deepContainsSym(x.v, depth+1)
+	case *value:
+		if x != nil {
+			return deepContainsSym(*x, depth+1)
+		}
+	case map[value]value:
+		for _, f := range x {
+			if deepContainsSym(f, depth+1) {
+				return true
 			}
 		}
 	}
-	pools = map[*value]*pool{}
-	builders = map[*value]string{}
-	return i
+	return false
 }
 
-// Explore runs fn on every path; returns the explorer with stats.
-func (m *Machine) Explore(fn *ssa.Function, maxPaths int) *Explorer {
-	e := &Explorer{z: newZ3(), Covers: map[string]int{}, declared: map[string]bool{}}
-	cur = e
-	t0 := time.Now()
-	for {
-		e.pos, e.pc, e.nfresh = 0, nil, 0
-		i := m.fresh()
-		func() {
-			defer func() {
-				if r := recover(); r != nil {
-					if _, ok := r.(pathAbort); !ok {
-						n := len(CallStack)
-						if n > 4 {
-							n = 4
-						}
-						e.Viol = append(e.Viol, fmt.Sprintf("PANIC %v @ %v", r, CallStack[len(CallStack)-n:]))
-					}
-					CallStack = nil
-				}
-			}()
-			for _, in := range m.inits {
-				call(i, nil, token.NoPos, in, nil)
-			}
-			call(i, nil, token.NoPos, fn, nil)
-		}()
-		e.Paths++
-		if e.Paths >= maxPaths || !e.next() {
-			break
-		}
+// deepEqTerm: reflect.DeepEqual on interpreter values (follows pointers, slices, maps)
+func deepEqTerm(x, y value, depth int) string {
+	if depth > 30 {
+		panic(pathAbort{"unsupported: DeepEqual recursion too deep"})
 	}
-	_ = t0
-	return e
+	switch xv := x.(type) {
+	case iface:
+		yv, ok := y.(iface)
+		if !ok {
+			return "false"
+		}
+		if xv.t == nil || yv.t == nil {
+			if xv.t == nil && yv.t == nil {
+				return "true"
+			}
+			return "false"
+		}
+		if !types.Identical(xv.t, yv.t) {
+			return "false"
+		}
+		return deepEqTyped(xv.t, xv.v, yv.v, depth+1)
+	}
+	return deepEqTyped(nil, x, y, depth)
+}
+
+func deepEqTyped(t types.Type, x, y value, depth int) string {
+	switch xv := x.(type) {
+	case iface:
+		return deepEqTerm(x, y, depth)
+	case structure:
+		yv := y.(structure)
+		var st *types.Struct
+		if t != nil {
+			st, _ = t.Underlying().(*types.Struct)
+		}
+		var cs []string
+		for i := range xv {
+			var ft types.Type
+			if st != nil && i < st.NumFields() {
+				ft = st.Field(i).Type()
+			}
+			cs = append(cs, deepEqTyped(ft, xv[i], yv[i], depth+1))
+		}
+		return mkAnd(cs...)
+	case array:
+		yv := y.(array)
+		var cs []string
+		for i := range xv {
+			cs = append(cs, deepEqTyped(nil, xv[i], yv[i], depth+1))
+		}
+		return mkAnd(cs...)
+	case []value:
+		yv := y.([]value)
+		if (xv == nil) != (yv == nil) || len(xv) != len(yv) {
+			return "false"
+		}
+		var cs []string
+		for i := range xv {
+			cs = append(cs, deepEqTyped(nil, xv[i], yv[i], depth+1))
+		}
+		return mkAnd(cs...)
+	case *value:
+		yv := y.(*value)
+		if xv == yv {
+			return "true"
+		}
+		if xv == nil || yv == nil {
+			return "false"
+		}
+		var et types.Type
+		if t != nil {
+			if pt, ok := t.Underlying().(*types.Pointer); ok {
+				et = pt.Elem()
+			}
+		}
+		return deepEqTyped(et, *xv, *yv, depth+1)
+	case map[value]value:
+		yv := y.(map[value]value)
+		if (xv == nil) != (yv == nil) || len(xv) != len(yv) {
+			return "false"
+		}
+		var cs []string
+		for k, a := range xv {
+			b, ok := yv[k]
+			if !ok {
+				return "false"
+			}
+			cs = append(cs, deepEqTyped(nil, a, b, depth+1))
+		}
+		sort.Strings(cs)
+		return mkAnd(cs...)
+	case *ssa.Function, *closure:
+		if isNilFunc(x) && isNilFunc(y) {
+			return "true"
+		}
+		return "false"
+	case symF:
+		b, _ := liftF(y)
+		return fmt.Sprintf("(fp.eq %s %s)", xv.t, b.t)
+	case float64, float32:
+		if yf, ok := y.(symF); ok {
+			a, _ := liftF(x)
+			return fmt.Sprintf("(fp.eq %s %s)", a.t, yf.t)
+		}
+	case opaqueStr:
+		panic(pathAbort{"unsupported: DeepEqual on opaque string"})
+	}
+	if isSymScalar(x) || isSymScalar(y) {
+		r, ok := symBinop(token.EQL, t, x, y)
+		if !ok {
+			panic("engine: deepEq scalar")
+		}
+		b, _ := liftB(r)
+		return b.t
+	}
+	if _, ok := y.(opaqueStr); ok {
+		panic(pathAbort{"unsupported: DeepEqual on opaque string"})
+	}
+	if reflect.TypeOf(x) != reflect.TypeOf(y) {
+		return "false"
+	}
+	if x == y {
+		return "true"
+	}
+	return "false"
+}
+
+func init() {
+	externals["time.runtimeNano"] = func(fr *frame, args []value) value { return int64(1) }
+	externals["time.now"] = func(fr *frame, args []value) value { return tuple{int64(1700000000), int32(0), int64(1)} }
+	externals["runtime.GOROOT"] = func(fr *frame, args []value) value { return "/usr/local/go" }
 }
